@@ -98,6 +98,21 @@ def rule_R4a_to_string(text, mask, ctx):
     return eds
 
 
+def rule_R7_static(text, mask, ctx):
+    """static NAME: T = LIT;  ->  exec static NAME: T ensures NAME == LIT { LIT }   (&str compared by view)"""
+    eds = []
+    for m in re.finditer(r'^([ \t]*)(pub(?:\([a-z]+\))?\s+)?static\s+(\w+)\s*:\s*([^=;]+?)\s*=\s*', mask, re.M):
+        semi = mask.find(';', m.end())
+        lit = text[m.end():semi].strip()
+        name, ty = m.group(3), m.group(4).strip()
+        if ty == '&str':
+            new = '%s%sexec static %s: &\'static str ensures %s@ == %s@ { %s }' % (m.group(1), m.group(2) or '', name, name, lit, lit)
+        else:
+            new = '%s%sexec static %s: %s ensures %s == %s { %s }' % (m.group(1), m.group(2) or '', name, ty, name, lit, lit)
+        eds.append((m.start(), semi + 1, new, 'R7'))
+    return eds
+
+
 def rule_R8_closure_underscore(text, mask, ctx):
     eds = []
     for m in re.finditer(r'\|_\|', mask):
@@ -131,7 +146,7 @@ def rule_R17_method_stubs(text, mask, ctx):
     return eds
 
 
-RULES = [rule_R0_paths, rule_R1_format, rule_R16_doc, rule_R2_chars_collect, rule_R3_streq,
+RULES = [rule_R7_static, rule_R0_paths, rule_R1_format, rule_R16_doc, rule_R2_chars_collect, rule_R3_streq,
          rule_R4a_to_string, rule_R8_closure_underscore, rule_R10_halt, rule_R17_method_stubs]
 
 
@@ -150,12 +165,12 @@ class Template:
         self.lines = open(path).read().split('\n')
 
 
-def parse_fn_block(lines, i):
+def parse_fn_block(lines, i, tname=''):
     """lines[i] is '//@ fn ...'. Parse until '//@ end'. Returns (spec, next_i)."""
     hdr = lines[i][len('//@ fn '):]
     rel, sel = [x.strip() for x in hdr.split(' :: ', 1)]
     spec = dict(file=rel, selector=sel, props=[], ret=None, sig=[], loops={}, anchors=[], head=[],
-                tmpl_line=i + 1, rules_off=[], replace_sig=None, stubs={})
+                tmpl_line='%s:%d' % (tname, i + 1), rules_off=[], replace_sig=None, stubs={})
     cur = None
     i += 1
     while i < len(lines):
@@ -178,7 +193,7 @@ def parse_fn_block(lines, i):
                 cur = spec['head']
             elif w[0] == 'loop':
                 k = int(w[1])
-                spec['loops'][k] = dict(iter=None, text=[], tmpl_line=i + 1)
+                spec['loops'][k] = dict(iter=None, text=[], tmpl_line='%s:%d' % (tname, i + 1))
                 if len(w) >= 4 and w[2] == 'iter':
                     spec['loops'][k]['iter'] = w[3]
                 cur = spec['loops'][k]['text']
@@ -186,9 +201,16 @@ def parse_fn_block(lines, i):
                 mm = re.match(r'(before|after)\s+"(.*)"(?:\s+#(\d+))?$', d)
                 if not mm:
                     raise LostAnchor('bad anchor directive: ' + d)
-                a = dict(where=mm.group(1), lit=mm.group(2), k=int(mm.group(3) or 1), text=[], tmpl_line=i + 1)
+                a = dict(where=mm.group(1), lit=mm.group(2), k=int(mm.group(3) or 1), text=[], tmpl_line='%s:%d' % (tname, i + 1))
                 spec['anchors'].append(a)
                 cur = a['text']
+            elif w[0] == 'closure':
+                mm = re.match(r'closure\s+(\d+)\s+params\s+"(.*?)"\s+ret\s+"(.*?)"$', d)
+                if not mm:
+                    raise LostAnchor('bad closure directive: ' + d)
+                c = dict(k=int(mm.group(1)), params=mm.group(2), ret=mm.group(3), text=[], tmpl_line='%s:%d' % (tname, i + 1))
+                spec.setdefault('closures', []).append(c)
+                cur = c['text']
             elif w[0] == 'norule':
                 spec['rules_off'] += w[1:]
                 cur = None
@@ -202,7 +224,7 @@ def parse_fn_block(lines, i):
                 raise LostAnchor('unknown directive in fn block: ' + d)
         else:
             if cur is not None:
-                cur.append((ln, i + 1))
+                cur.append((ln, '%s:%d' % (tname, i + 1)))
         i += 1
     raise LostAnchor('unterminated //@ fn block for ' + hdr)
 
@@ -288,7 +310,7 @@ class Gen:
                         off = org[2] + sum(len(x) + 1 for x in parts[:k])
                         cur_origin = ('src', rel, line_no(text, off))
                     elif org[0] == 'ann' and len(org) > 3:
-                        cur_origin = ('ann', org[1], org[2], org[3][k] if k < len(org[3]) else 0)
+                        cur_origin = ('ann', org[1], org[2], org[3][k] if k < len(org[3]) else '')
                     else:
                         cur_origin = org
                 elif part.strip() and org[0] in ('ann',) and cur_origin and cur_origin[0] == 'src':
@@ -365,7 +387,7 @@ class Gen:
             if not body:
                 return
             ann_id[0] += 1
-            eds.append((pos, pos, '\n' + '\n'.join(body) + '\n', 'A', ('ann', fnname, label, [0] + self._last_tls + [0])))
+            eds.append((pos, pos, '\n' + '\n'.join(body) + '\n', 'A', ('ann', fnname, label, [''] + self._last_tls + [''])))
 
         # return value name
         if spec['ret']:
@@ -415,6 +437,36 @@ class Gen:
                     raise LostAnchor('loop #%d of %s is not a for loop' % (k, sel))
                 eds.append((lp['in_end'], lp['in_end'], ' %s:' % lspec['iter'], 'A2', ('ann', fnname, 'loop%d.iter' % k)))
             ann(lp['body_open'], lspec['text'], 'loop%d' % k, 'loop%d' % k)
+        # closures (A3): |p| EXPR  ->  |p: T| -> (q: R) ensures ... { EXPR }
+        for c in spec.get('closures', []):
+            cl = [m for m in re.finditer(r'(?<![|\w)\]])\|([^|\n]*)\|(?!\|)', mask[bo:bc])]
+            cl = [m for m in cl if mask[bo + m.start() - 1] in '( ,=\n\t']
+            if c['k'] > len(cl):
+                raise LostAnchor('closure #%d not found in %s' % (c['k'], sel))
+            m = cl[c['k'] - 1]
+            p0, p1 = bo + m.start(), bo + m.end()
+            # enclosing call paren
+            depth = 0
+            q = p0 - 1
+            while q > bo:
+                if mask[q] == ')':
+                    depth += 1
+                elif mask[q] == '(':
+                    if depth == 0:
+                        break
+                    depth -= 1
+                q -= 1
+            close = match_brace(mask, q)
+            names_old = [x.strip().split(':')[0].strip() for x in m.group(1).split(',') if x.strip()]
+            names_new = [x.strip().split(':')[0].strip() for x in c['params'].split(',') if x.strip()]
+            if names_old != names_new and not (names_old == ['_'] ):
+                raise LostAnchor('closure #%d of %s has parameters %s, contract expects %s' % (c['k'], sel, names_old, names_new))
+            body = self.clause_lines(fnname, 'closure%d' % c['k'], c['text'], props)
+            eds.append((p0, p1, '|%s| -> (%s)' % (c['params'], c['ret']), 'A3', ('ann', fnname, 'closure%d' % c['k'])))
+            body_is_block = text[p1:close].strip().startswith('{')
+            eds.append((p1, p1, '\n' + '\n'.join(body) + '\n' + ('' if body_is_block else '{ '), 'A3', ('ann', fnname, 'closure%d' % c['k'], [''] + self._last_tls + [''])))
+            if not body_is_block:
+                eds.append((close, close, ' }', 'A3', ('ann', fnname, 'closure%d' % c['k'])))
         # anchors
         for a in spec['anchors']:
             body_text = text[bo:bc]
@@ -429,11 +481,11 @@ class Gen:
             if a['where'] == 'before':
                 p = line_start(text, pos)
                 body = self.clause_lines(fnname, 'ghost', a['text'], props)
-                eds.append((p, p, '\n'.join(body) + '\n', 'A4', ('ann', fnname, 'ghost@' + a['lit'], self._last_tls + [0])))
+                eds.append((p, p, '\n'.join(body) + '\n', 'A4', ('ann', fnname, 'ghost@' + a['lit'], self._last_tls + [''])))
             else:
                 p = line_end(text, pos)
                 body = self.clause_lines(fnname, 'ghost', a['text'], props)
-                eds.append((p, p, '\n' + '\n'.join(body), 'A4', ('ann', fnname, 'ghost@' + a['lit'], [0] + self._last_tls)))
+                eds.append((p, p, '\n' + '\n'.join(body), 'A4', ('ann', fnname, 'ghost@' + a['lit'], [''] + self._last_tls)))
         first_out = len(self.out)
         self.apply_edits(rel, it['start'], it['end'], eds)
         self.report['functions'].append(dict(
@@ -445,19 +497,24 @@ class Gen:
             edits=[dict(tag=e[3], at=line_no(text, e[0]), old=text[e[0]:e[1]][:60], new=e[2][:60]) for e in sorted(eds) if not e[3].startswith('A') or e[3] != 'A']))
 
     # ----------------------------------------------------------------------------------------
-    def run(self):
-        L = self.tmpl.lines
+    def run(self, L=None, tname=None):
+        if L is None:
+            L = self.tmpl.lines
+            tname = os.path.basename(self.tmpl.path)
         i = 0
         while i < len(L):
             ln = L[i]
             s = ln.strip()
             if s.startswith('//@ fn '):
-                spec, i = parse_fn_block(L, i)
+                spec, i = parse_fn_block(L, i, tname)
                 self.do_fn(spec)
                 continue
             if s.startswith('//@ item '):
                 rel, sel = [x.strip() for x in s[len('//@ item '):].split(' :: ', 1)]
                 self.do_item(rel, sel)
+            elif s.startswith('//@ include-tmpl '):
+                p = os.path.join(VERIF, s[len('//@ include-tmpl '):].strip())
+                self.run(open(p).read().split('\n'), os.path.basename(p))
             elif s.startswith('//@ include '):
                 p = os.path.join(VERIF, s[len('//@ include '):].strip())
                 for k, l2 in enumerate(open(p).read().split('\n')):
@@ -469,11 +526,11 @@ class Gen:
             elif s.startswith('//@ lemma '):
                 # //@ lemma LABEL props...   : ledger entry for a proof fn that follows
                 w = s.split()
-                self.ledger.append(dict(fn=w[2], label=w[2], kind='lemma', props=w[3:], text='proof fn ' + w[2], tmpl_line=i + 1))
+                self.ledger.append(dict(fn=w[2], label=w[2], kind='lemma', props=w[3:], text='proof fn ' + w[2], tmpl_line='%s:%d' % (tname, i + 1)))
             elif s.startswith('//@'):
                 raise LostAnchor('unknown directive: ' + s)
             else:
-                self.out.append((ln, ('tmpl', os.path.basename(self.tmpl.path), i + 1)))
+                self.out.append((ln, ('tmpl', tname, i + 1)))
             i += 1
         return self
 
